@@ -39,14 +39,14 @@
 EXTENDS Integers, Sequences, FiniteSets, TLC
 
 NoBase == [p |-> "", n |-> ""]
-NoType == [p |-> "", n |-> "", rng |-> "", en |-> << >>, base |-> NoBase]
-NoEt == [base |-> "", rngs |-> << >>, en |-> << >>, ids |-> {}]
+NoType == [p |-> "", n |-> "", rng |-> "", len |-> "", en |-> << >>, base |-> NoBase]
+NoEt == [base |-> "", rngs |-> << >>, lens |-> << >>, en |-> << >>, ids |-> {}]
 
 St(k, n) == [k |-> k, n |-> n, ref0 |-> [p |-> "", g |-> ""], cfg |-> "", mand |-> "", dflt |-> "", desc |-> "", iff |-> "",
              keys |-> << >>, c |-> << >>, gs |-> << >>, ref |-> << >>, aug |-> << >>,
              ty |-> NoType, units |-> "", tds |-> << >>, et |-> NoEt]
 
-Builtins == {"identityref", "string", "int8", "int16", "int32", "int64", "uint8", "uint16", "uint32", "uint64", "boolean", "enumeration", "decimal64"}
+Builtins == {"identityref", "binary", "string", "int8", "int16", "int32", "int64", "uint8", "uint16", "uint32", "uint64", "boolean", "enumeration", "decimal64"}
 
 RECURSIVE Flatten(_)
 Flatten(ss) == IF ss = << >> THEN << >> ELSE Head(ss) \o Flatten(Tail(ss))
@@ -154,13 +154,14 @@ MainOf(ms) == "m"
 \* stated along the chain (nearest first), and the default / units of the nearest typedef that has one
 RECURSIVE ResolveType(_, _, _, _)
 ResolveType(ms, mod, scope, ty) ==
-    LET own == IF ty.rng = "" THEN << >> ELSE << ty.rng >> IN
+    LET own == IF ty.rng = "" THEN << >> ELSE << ty.rng >>
+        ownLen == IF ty.len = "" THEN << >> ELSE << ty.len >> IN
     IF ty.p = "" /\ ty.n \in Builtins
-    THEN [base |-> ty.n, rngs |-> own, en |-> NumberEnums(ty.en, -1), dflt |-> "", units |-> "",
+    THEN [base |-> ty.n, rngs |-> own, lens |-> ownLen, en |-> NumberEnums(ty.en, -1), dflt |-> "", units |-> "",
           idbase |-> ty.base, idmod |-> mod]
     ELSE LET l == LookupTd(ms, mod, scope, ty)
              inner == ResolveType(ms, l.mod, l.scope, l.td.ty)
-         IN [base |-> inner.base, rngs |-> own \o inner.rngs, en |-> inner.en, idbase |-> inner.idbase, idmod |-> inner.idmod,
+         IN [base |-> inner.base, rngs |-> own \o inner.rngs, lens |-> ownLen \o inner.lens, en |-> inner.en, idbase |-> inner.idbase, idmod |-> inner.idmod,
              dflt |-> IF l.td.dflt # "" THEN l.td.dflt ELSE inner.dflt,
              units |-> IF l.td.units # "" THEN l.td.units ELSE inner.units]
 
@@ -241,7 +242,7 @@ ExpandOne(ms, mod, on, scope, s) ==
     ELSE IF s.k \in {"leaf", "leaflist"} THEN
         \* the type is resolved where the leaf is written; what the leaf states itself wins
         LET r == ResolveType(ms, mod, scope, s.ty) IN
-        << [s EXCEPT !.et = [base |-> r.base, rngs |-> r.rngs, en |-> r.en, ids |-> Accepted(ms, MainOf(ms), r.idmod, r.idbase)],
+        << [s EXCEPT !.et = [base |-> r.base, rngs |-> r.rngs, lens |-> r.lens, en |-> r.en, ids |-> Accepted(ms, MainOf(ms), r.idmod, r.idbase)],
                      !.dflt = IF s.dflt # "" THEN s.dflt ELSE r.dflt,
                      !.units = IF s.units # "" THEN s.units ELSE r.units] >>
     ELSE LET kids == Expand(ms, mod, on, << [gs |-> s.gs, tds |-> s.tds] >> \o scope, s.c) IN
@@ -316,6 +317,7 @@ Diff(want0, got, unordered) ==
     ELSE IF \E i \in DOMAIN want : want[i].units # got[i].units THEN "units-differ"
     ELSE IF \E i \in DOMAIN want : want[i].k \in {"leaf", "leaflist"} /\ want[i].et.base # got[i].et.base THEN "base-type-differs"
     ELSE IF \E i \in DOMAIN want : want[i].k \in {"leaf", "leaflist"} /\ want[i].et.rngs # got[i].et.rngs THEN "accumulated-ranges-differ"
+    ELSE IF \E i \in DOMAIN want : want[i].k \in {"leaf", "leaflist"} /\ want[i].et.lens # got[i].et.lens THEN "accumulated-lengths-differ"
     ELSE IF \E i \in DOMAIN want : want[i].k \in {"leaf", "leaflist"} /\ want[i].et.en # got[i].et.en THEN "enum-values-differ"
     ELSE IF \E i \in DOMAIN want : want[i].k \in {"leaf", "leaflist"} /\ want[i].et.ids # { got[i].et.ids[j] : j \in DOMAIN got[i].et.ids }
          THEN "accepted-identities-differ"
